@@ -143,5 +143,163 @@ theorem lowest_window (cs : List (Candle K)) (ind : String) (f : Candle K → Nu
   intro k' h1' h2'
   exact hmin _ ((mem_cleanScalars_attr cs ind f hf n i hi _).2 ⟨k', h1', h2', rfl⟩)
 
+/-! ### the textbook window extremes -/
+
+/-- highest of `x j, x (j−1), …, x (j−w)`; indices are cut at candle 0 (`j − d` is the natural
+subtraction: a window reaching before the first candle just repeats `x 0`) -/
+def winMax (x : Nat → K) (j : Nat) : Nat → K
+  | 0 => x j
+  | w + 1 => max (winMax x j w) (x (j - (w + 1)))
+
+/-- lowest of `x j, x (j−1), …, x (j−w)` (cut at candle 0) -/
+def winMin (x : Nat → K) (j : Nat) : Nat → K
+  | 0 => x j
+  | w + 1 => min (winMin x j w) (x (j - (w + 1)))
+
+theorem winMax_ge (x : Nat → K) (j w : Nat) : ∀ d, d ≤ w → x (j - d) ≤ winMax x j w := by
+  induction w with
+  | zero => intro d hd; have : d = 0 := by omega
+            subst this; exact le_refl _
+  | succ w ih =>
+    intro d hd
+    by_cases h : d ≤ w
+    · exact le_trans (ih d h) (le_max_left _ _)
+    · have : d = w + 1 := by omega
+      subst this; exact le_max_right _ _
+
+theorem winMax_mem (x : Nat → K) (j w : Nat) : ∃ d, d ≤ w ∧ winMax x j w = x (j - d) := by
+  induction w with
+  | zero => exact ⟨0, le_refl _, rfl⟩
+  | succ w ih =>
+    obtain ⟨d, hd, he⟩ := ih
+    rcases max_choice (winMax x j w) (x (j - (w + 1))) with h | h
+    · exact ⟨d, by omega, by rw [winMax, h, he]⟩
+    · exact ⟨w + 1, le_refl _, by rw [winMax, h]⟩
+
+theorem winMin_le (x : Nat → K) (j w : Nat) : ∀ d, d ≤ w → winMin x j w ≤ x (j - d) := by
+  induction w with
+  | zero => intro d hd; have : d = 0 := by omega
+            subst this; exact le_refl _
+  | succ w ih =>
+    intro d hd
+    by_cases h : d ≤ w
+    · exact le_trans (min_le_left _ _) (ih d h)
+    · have : d = w + 1 := by omega
+      subst this; exact min_le_right _ _
+
+theorem winMin_mem (x : Nat → K) (j w : Nat) : ∃ d, d ≤ w ∧ winMin x j w = x (j - d) := by
+  induction w with
+  | zero => exact ⟨0, le_refl _, rfl⟩
+  | succ w ih =>
+    obtain ⟨d, hd, he⟩ := ih
+    rcases min_choice (winMin x j w) (x (j - (w + 1))) with h | h
+    · exact ⟨d, by omega, by rw [winMin, h, he]⟩
+    · exact ⟨w + 1, le_refl _, by rw [winMin, h]⟩
+
+/-- the window encloses the candle's own value -/
+theorem winMax_self (x : Nat → K) (j w : Nat) : x j ≤ winMax x j w := winMax_ge x j w 0 (Nat.zero_le _)
+theorem winMin_self (x : Nat → K) (j w : Nat) : winMin x j w ≤ x j := winMin_le x j w 0 (Nat.zero_le _)
+theorem winMin_le_winMax (l h : Nat → K) (hlh : ∀ k, l k ≤ h k) (j w : Nat) : winMin l j w ≤ winMax h j w :=
+  le_trans (winMin_self l j w) (le_trans (hlh j) (winMax_self h j w))
+
+/-- a value attained in the window `max(j−w,0) … j` that bounds the window from above IS `winMax` -/
+theorem winMax_unique (x : Nat → K) (j w k : Nat) (h1 : j - w ≤ k) (h2 : k ≤ j)
+    (hub : ∀ k', j - w ≤ k' → k' ≤ j → x k' ≤ x k) : x k = winMax x j w := by
+  apply le_antisymm
+  · have := winMax_ge x j w (j - k) (by omega)
+    rwa [show j - (j - k) = k by omega] at this
+  · obtain ⟨d, hd, he⟩ := winMax_mem x j w
+    rw [he]; exact hub _ (by omega) (by omega)
+
+theorem winMin_unique (x : Nat → K) (j w k : Nat) (h1 : j - w ≤ k) (h2 : k ≤ j)
+    (hlb : ∀ k', j - w ≤ k' → k' ≤ j → x k ≤ x k') : x k = winMin x j w := by
+  apply le_antisymm
+  · obtain ⟨d, hd, he⟩ := winMin_mem x j w
+    rw [he]; exact hlb _ (by omega) (by omega)
+  · have := winMin_le x j w (j - k) (by omega)
+    rwa [show j - (j - k) = k by omega] at this
+
+/-- field `fld` of raw candle `j` as the stored number (type kept) -/
+def numAt (fld : Candle K → Num K) (raw : List (Candle K)) (j : Nat) : Num K := fld (raw.getD j default)
+
+theorem fieldAt_numAt (fld : Candle K → Num K) (raw : List (Candle K)) (j : Nat) :
+    fieldAt fld raw j = (numAt fld raw j).toF := rfl
+
+/-! ### the step context of a leaf: highs and lows are the raw ones -/
+
+section stepwin
+variable (nm : String) (raw : List (Candle K)) (vs : List (Val K)) (m : Nat)
+
+theorem stepCtx_getD (hm : m < raw.length) (hvs : vs.length = m) (fld : Candle K → Num K)
+    (hfld : ∀ (v : Val K) (c : Candle K), fld (setKey false nm v c) = fld c) (k : Nat) (hk : k ≤ m) :
+    fld ((stepCtx nm raw vs m).cs.getD k default) = fld (raw.getD k default) := by
+  rw [List.getD_eq_getElem?_getD]
+  by_cases hkm : k < m
+  · rw [stepCtx_lt nm raw vs m hm hvs k hkm]; exact hfld _ _
+  · have : k = m := by omega
+    subst this
+    rw [stepCtx_eq nm raw vs k hm hvs]; rfl
+
+theorem stepCtx_highest (hm : m < raw.length) (hvs : vs.length = m) (w : Nat) (hw : 1 ≤ w) :
+    ∃ k, m - w ≤ k ∧ k ≤ m ∧
+      Mov.highest (stepCtx nm raw vs m).cs "high" (w : Int) (m : Int) = .ok (.num (numAt (·.h) raw k)) ∧
+      (numAt (·.h) raw k).toF = winMax (fieldAt (·.h) raw) m w := by
+  have hlen := stepCtx_length nm raw vs m hm hvs
+  obtain ⟨k, h1, h2, h3, h4⟩ := highest_window (stepCtx nm raw vs m).cs "high" (·.h)
+    (fun c => readingByCandle_high c) w m hw (by rw [hlen]; omega)
+  have hg : ∀ k', k' ≤ m → ((stepCtx nm raw vs m).cs.getD k' default).h = (raw.getD k' default).h :=
+    fun k' hk' => stepCtx_getD nm raw vs m hm hvs (·.h) (fun _ _ => rfl) k' hk'
+  refine ⟨k, h1, h2, ?_, ?_⟩
+  · rw [h3]; simp only [hg k h2]; rfl
+  · refine winMax_unique (fieldAt (·.h) raw) m w k h1 h2 ?_
+    intro k' h1' h2'
+    have := h4 k' h1' h2'
+    simp only [hg k h2, hg k' h2'] at this
+    exact this
+
+theorem stepCtx_lowest (hm : m < raw.length) (hvs : vs.length = m) (w : Nat) (hw : 1 ≤ w) :
+    ∃ k, m - w ≤ k ∧ k ≤ m ∧
+      Mov.lowest (stepCtx nm raw vs m).cs "low" (w : Int) (m : Int) = .ok (.num (numAt (·.l) raw k)) ∧
+      (numAt (·.l) raw k).toF = winMin (fieldAt (·.l) raw) m w := by
+  have hlen := stepCtx_length nm raw vs m hm hvs
+  obtain ⟨k, h1, h2, h3, h4⟩ := lowest_window (stepCtx nm raw vs m).cs "low" (·.l)
+    (fun c => readingByCandle_low c) w m hw (by rw [hlen]; omega)
+  have hg : ∀ k', k' ≤ m → ((stepCtx nm raw vs m).cs.getD k' default).l = (raw.getD k' default).l :=
+    fun k' hk' => stepCtx_getD nm raw vs m hm hvs (·.l) (fun _ _ => rfl) k' hk'
+  refine ⟨k, h1, h2, ?_, ?_⟩
+  · rw [h3]; simp only [hg k h2]; rfl
+  · refine winMin_unique (fieldAt (·.l) raw) m w k h1 h2 ?_
+    intro k' h1' h2'
+    have := h4 k' h1' h2'
+    simp only [hg k h2, hg k' h2'] at this
+    exact this
+
+end stepwin
+
+/-! ## HighestLowest -/
+
+/-- what the whole-series theorem says of the HighestLowest reading at index `j` (EVERY index: the
+indicator has no warm-up): a dict `{low, high}` holding the low / high of two candles `kl`, `kh` of
+the window `max(j−p, 0) … j` (`p + 1` candles once `j ≥ p`), with their type (an int stays an int,
+a float is rounded), whose values are the lowest low / highest high of that window -/
+def HlOK (p n : Nat) (hN lN : Nat → Num K) (j : Nat) (v : Val K) : Prop :=
+  ∃ kl kh, (j - p ≤ kl ∧ kl ≤ j) ∧ (j - p ≤ kh ∧ kh ≤ j) ∧
+    v = .dict [("low", .num ((lN kl).roundBy n)), ("high", .num ((hN kh).roundBy n))] ∧
+    (lN kl).toF = winMin (fun k => (lN k).toF) j p ∧ (hN kh).toF = winMax (fun k => (hN k).toF) j p
+
+/-- **C05 for the whole HighestLowest series**, period `p ≥ 1` (`p = 0` makes `movement.highest`
+return `False`).  Readings from candle 0 on; window of `p + 1` candles, cut at candle 0. -/
+theorem hl_series (p : Nat) (hp : 1 ≤ p) (nm : String) (n : Nat) (hk : IsKey nm)
+    (raw : List (Candle K)) (hraw : ∀ c ∈ raw, Plain c) :
+    ∃ vs : List (Val K), vs.length = raw.length ∧
+      rowMajor (mkTop (.hl p) nm n) raw = .ok (deco nm raw vs) ∧
+      ∀ j, j < raw.length → HlOK p n (numAt (·.h) raw) (numAt (·.l) raw) j (vs.getD j .none) := by
+  refine series_induct (mkTop (.hl p) nm n) nm rfl rfl raw _ ?_
+  intro m hm vs hvs _
+  change ∃ v, Calc.hl (stepCtx nm raw vs m) p = .ok v ∧ HlOK p n _ _ m (v.roundBy n)
+  obtain ⟨kh, a1, a2, a3, a4⟩ := stepCtx_highest nm raw vs m hm hvs p hp
+  obtain ⟨kl, b1, b2, b3, b4⟩ := stepCtx_lowest nm raw vs m hm hvs p hp
+  exact ⟨_, hl_def (stepCtx nm raw vs m) p _ _ b3 a3, kl, kh, ⟨b1, b2⟩, ⟨a1, a2⟩, rfl, b4, a4⟩
+
 end Numeric
 end Hex
